@@ -37,6 +37,10 @@ CHECKS = {
    text="Decides one necessary clause: the rebroadcast set is committed and compared - in consensus mode every accepting path of Block::validate passes cv.rebroadcast_hash == self.rebroadcast_hash and cv.total_rebroadcast_slips == self.total_rebroadcast_slips, and Block::generate accumulates both header values only under the ATR arm of the match on transaction type. Does not decide which outputs are eligible, ownership, amounts, or expiry across histories.",
    note=TRUST,
    technique="static analysis: must-pass-through over the MIR CFG; control-dependence of field writes on an enum arm"),
+ "C09": dict(level="other",
+   text="Decides writer/reader layout agreement of the hand-written codecs (the necessary condition that all-zero round-trip tests cannot see): for 11 codec pairs (Slip, Hop, Transaction, Block, GoldenTicket, HandshakeChallenge, HandshakeResponse, BlockchainRequest, ApiMessage, Version, Wallet disk form) the ordered (field, width) segments of the writer - widths taken from the compiler's types of the written expressions - and the constant ranges from which the reader initialises each field must coincide on the fixed-layout prefix; SLIP_SIZE/HOP_SIZE/TRANSACTION_SIZE/BLOCK_HEADER_SIZE equal that prefix; the Message tag table is injective and each decode arm builds the variant written with that tag. Does not decide value equality of variable parts, hash/signature preservation, GhostChainSync's count-scaled layout or the text formats.",
+   note=TRUST,
+   technique="static analysis: extraction and comparison of writer and reader layout tables from MIR (sibling-implementation cross-check)"),
  "C10": dict(level="other",
    text="Decides panic-freedom of slicing / indexing / unwrapping / asserting on input bytes in the 15 decoder entry points and the byte-consuming callees they reach: every such operation is an obligation discharged by linear length facts from dominating tests (len < e => exit, len != c => exit, is_empty), loop-index facts of Range iteration, integer-division facts and constant-width try_into, with callees analysed in the caller's context (constant length or provable lower bound) and is_err()/is_ok() variant knowledge for unwraps. Decoders that cannot express failure are judged through all their call sites. Does not decide the allocation bound or arithmetic overflow (64-bit usize assumed). Three genuine defects (decoders that cannot reject) are recorded as known findings.",
    note=TRUST + " The linear prover (analysis/linear.py) is a sound-by-construction combination search: it only ever subtracts non-negative multiples of available facts.",
